@@ -83,6 +83,9 @@ type (
 		// Engine implements function calls for this module.
 		Engine ModuleEngine
 
+		// importedFuncrefGlobalOwners are the instances whose funcref globals this instance imports.
+		importedFuncrefGlobalOwners []*ModuleInstance
+
 		// TypeIDs is index-correlated with types and holds typeIDs which is uniquely assigned to a type by store.
 		// This is necessary to achieve fast runtime type checking for indirect function calls at runtime.
 		TypeIDs []FunctionTypeID
@@ -514,6 +517,11 @@ func (m *ModuleInstance) resolveImports(ctx context.Context, module *Module) (er
 					return
 				}
 				m.Globals[i.IndexPerType] = importedGlobal
+				if expected.ValType == ValueTypeFuncref {
+					// The value of a funcref global is an untyped pointer into the functions of the exporting instance:
+					// keep that instance reachable for as long as this one lives.
+					m.importedFuncrefGlobalOwners = append(m.importedFuncrefGlobalOwners, importedModule)
+				}
 			}
 		}
 	}
